@@ -86,6 +86,9 @@ class C15(Prop):
         # alias for the registered value: seeded C15-r4, `match i as i32`)
         alias = [v + s * 2**w for v in (-7, -35, -65535, -260, -1, 1, 3, 4, 8, 38, 322) for w in (8, 16, 32, 64) for s in (1, -1) if -2**64 <= v + s * 2**w < 2**64]
         lattice = sorted(set(lattice + alias))
+        # limits of every Rust integer type and of exact integers in f32 / f64 (informed round 8: i32::MAX treated as "no end date")
+        typelim = [x + d for b in (7, 8, 15, 16, 24, 31, 32, 53, 63, 64) for x in (2**b, -2**b) for d in (-2, -1, 0, 1) if -2**64 <= x + d < 2**64]
+        lattice = sorted(set(lattice + typelim))
         rnd = [r.randrange(-2**64, 2**64) for _ in range(budget(tier, 300, 6000))]
         def positions(e):
             h = e.hex()
@@ -272,6 +275,13 @@ class C18(Prop):
             c = r.random()
             if c < 0.3: ops.append(mk('chain PartyInfo b' + g.venc(party()).hex(), k='party'))
             elif c < 0.6: ops.append(mk('chain SuppPubInfo b' + g.venc(supp()).hex(), k='supp'))
+        # the protected header of SuppPubInfo gets the same nesting budget as every other protected header (informed round 8)
+        from props_streams import nestG, NEST_PATTERNS
+        for k in (14, 15, 16, 17, 18):
+            for pat in NEST_PATTERNS:
+                h = nestG(k, pat); hb = refcbor.head(2, len(h)) + h
+                ops.append(mk('chain SuppPubInfo b' + (b'\x82\x18\x80' + hb).hex(), k='supp-nest', n=k))
+                ops.append(mk('chain CoseKdfContext b' + (b'\x84\x01\x83\xf6\xf6\xf6\x83\xf6\xf6\xf6\x82\x18\x80' + hb).hex(), k='kdf-nest', n=k))
         for _ in range(budget(tier, 1500, 20000)):
             t = r.choice(['ClaimsSet', 'CoseKdfContext', 'PartyInfo', 'SuppPubInfo'])
             ops.append(mk('enc %s %s' % (t, g.typed(t)), k='enc:' + t))
